@@ -157,7 +157,10 @@ def generate(seed, tier="quick"):
             "sequence": r.choice(["adaptive", "adaptive", "fixed_level"]),
             # history of the PRODUCT object: it was used once with another maturity (a term-structure loop moves the
             # public attribute and prices again)
-            "earlier_maturity": (T * r.choice([0.5, 2.0]) if (kind != "coupling" and r.random() < 0.12) else None)}
+            "earlier_maturity": (T * r.choice([0.5, 2.0]) if (kind != "coupling" and r.random() < 0.12) else None),
+            # a SECOND simulator of the same class, with another step cap and another maturity, is prepared after this one
+            # and before this one simulates (two processes alive at once, e.g. two products priced side by side)
+            "decoy": (mode == "maxstep" and r.random() < 0.3)}
 
 
 def shrink_candidates(sc):
@@ -332,6 +335,18 @@ def execute(wd, sc):
             process.pre_computation(npaths, product)
         elif kind == "coupling":
             wd.probes["c15.simulated_right_after_next_level"] += 1
+        if sc.get("decoy") and eps is not None:
+            phase["name"] = "decoy"
+            decoy = B.build_process(sc["process"])
+            dspec = dict(prod_spec, maturity=0.5 * T)
+            dprod = B.build_product(dspec, decoy.model)
+            decoy.initialisation(dprod, max_step_epsilon=4.0 * eps)
+            decoy.pre_computation(1, dprod)
+            if kind == "coupling":
+                decoy.next_level(1, None, dprod, max_step_epsilon=4.0 * eps)
+            wd.c15["decoy"] = decoy  # stays alive
+            wd.probes["c15.second_simulator_prepared_in_between"] += 1
+            phase["name"] = "setup"
     except HarnessError:
         raise
     except Exception as e:
